@@ -7,7 +7,7 @@ from gen.split import variant
 from encode import enc, NsTable
 from props.c07 import expected_formats
 
-PROF = profile(tokens=True, math_markup=True, p_math=0.12, p_rpr=0.6, p_link=0.2, p_text=0.6, run_items=(1, 4), inlines=(1, 5), p_table=0.12,
+PROF = profile(p_strict=0.12, tokens=True, math_markup=True, p_math=0.12, p_rpr=0.6, p_link=0.2, p_text=0.6, run_items=(1, 4), inlines=(1, 5), p_table=0.12,
                p_textbox=0.04, p_comments=0.3)
 RULE = ('a generated document and 3 random variants of it obtained by 2-12 rewrites each (cut a run in two keeping its properties, cut a text '
         'node, cut a hyperlink into two with the same attributes, insert proofing / bookmark / permission marks between or inside runs and '
